@@ -814,7 +814,7 @@ package http2
 //@ requires body: fr != nil && fr.fr != nil
 
 //@ func (*FrameHeader).readFrom
-//@ props C05 C16 C17 C02
+//@ props C05 C16 C17 C02 C18
 //@ # the header is fresh from AcquireFrameHeader / Reset: no body yet, empty payload
 //@ requires recv: f != nil && br != nil && f.fr == nil && len(f.payload) == 0
 //@ opt noframe=true
@@ -841,7 +841,7 @@ package http2
 //@ ensures err: r1 != nil ==> r0 == nil
 
 //@ func ReadFrameFrom
-//@ props C05 C16 C17 C02
+//@ props C05 C16 C17 C02 C18
 //@ requires rd: br != nil
 //@ opt noframe=true
 //@ ensures ok: r1 == nil ==> r0 != nil && r0.fr != nil && 0 <= r0.kind && r0.kind <= 9 && frameTypeOK(r0.fr, r0.kind) && r0.length == len(r0.payload)
